@@ -4,7 +4,7 @@ from ..stage import LineStage, replay_line
 from .common import *
 
 ARTEFACTS = ["G1-consts", "G2-rs-portable", "G3b-regions", "G3-arith", "G6-skeleton", "G8-chunkstate", "G9-update"]
-EXTRA_PROPS = [("B3.Props.C02T", "B3/Props/C02T.lean"), ("B3.Props.C01T", "B3/Props/C01T.lean")]   # theorems about the code translated from the sources
+EXTRA_PROPS = [("B3.Props.C02T", "B3/Props/C02T.lean"), ("B3.Props.C01T", "B3/Props/C01T.lean"), ("B3.Props.CapT", "B3/Props/CapT.lean")]   # theorems about the code translated from the sources
 RULE = ("op histories of 1-40 ops over up to 4 registers: new(mode), upd/updw(size class), clone, fin, xof+fill, cnt, "
         "(updates through update, Write::write, update_reader over scripted readers incl. short reads, update_rayon, the scripted join) at a forced platform; an exhaustive grid prefix p in 0..17 chunks x batch in 1..40 chunks (shrink loop) plus partial-chunk "
         "prefixes; non-trivial = at least one update after another update or a clone; distinct = distinct script text")
@@ -107,7 +107,8 @@ def stages(tier, seed, witness_search=False):
             ops += [f"H upd a {pat(b * 1024 + rng.choice([0, 0, 1, -1]), rng)}", "H cnt a", "H fin a",
                     f"H upd a {pat(rng.choice([0, 1, 1024, 3000]), rng)}", "H fin a", "H xof a x", "X fill x 96"]
             scripts.append(Script(ops, tags=("grid", plat)))
-    from . import c11
+    from . import c11, c08
+    scripts += c08.rayon_tail_scripts(rng, 40 if tier == "quick" else 600)
     # the file entry points (update_mmap, update_mmap_rayon, update_reader on real files incl. unmappable ones) against plain update
     return [LineStage("histories", scripts, normalize=normalize), c11.FileStage(seed + 11, fifo=False)]
 
